@@ -464,7 +464,7 @@ def run(ctx):
             if r.get("status") in ("ok", "err") and (r.get("ms") or 0) < 500 and len(c["src"]) < 150000]
     reps, procs = (4, 3) if ctx.quick() else (10, 6)
     mat = detcomp.matrix(dsrc, exe, in_process=reps, processes=procs)
-    dfind = detcomp.findings(dsrc, mat, exe_std)
+    dfind = detcomp.findings(dsrc, mat, exe_std, exe=exe)
     n_det = sum(v["count"] for m in mat for v in m.values()) * 2
     bad = {f["source"] for f in dfind}
     for f in dfind:
@@ -521,7 +521,7 @@ def run(ctx):
                     if small != src:
                         base = detcomp.write_includes(det["files"], "c06_shrunk") if det["files"] else None
                         s2 = [dict(src=small, files=det["files"], base=base, script=det["script"], explore=det["explore"])]
-                        f2 = detcomp.findings(s2, detcomp.matrix(s2, exe, in_process=16, processes=3), exe_std)
+                        f2 = detcomp.findings(s2, detcomp.matrix(s2, exe, in_process=16, processes=3, all_json=True), exe_std, exe=exe)
                         if f2 and (f2[0]["played"] or not det.get("played")):
                             src = small
                             det = dict(det, outcomes=f2[0]["outcomes"], counts=f2[0]["counts"], bytes=f2[0]["bytes"],
@@ -547,6 +547,7 @@ def run(ctx):
                           dict(site=site, audited=sorted(ALLOWED_ITERATION)), key="compiler-hash-iteration-site:" + site,
                           no_input=True)
     phases["shrink"] = round(time.time() - t1, 1)
+    detcomp.cleanup_includes()
     ctx.notes.append("C06 wall %.0fs, %d cases, %d compiled stories" % (time.time() - t0, len(cases), len(stories)))
 
 
@@ -568,7 +569,7 @@ def replay(ctx, payload):
     if r.get("status") in ("ok", "err") and "nondeterministic-output" not in fails:
         s1 = [dict(src=src, base=c.get("base"), files=files or {}, script=(pdet or {}).get("script") if isinstance(pdet, dict) else [],
                    explore=(pdet or {}).get("explore") if isinstance(pdet, dict) else None)]
-        for f in detcomp.findings(s1, detcomp.matrix(s1, exe, in_process=16, processes=4), vlib.build_harness()):
+        for f in detcomp.findings(s1, detcomp.matrix(s1, exe, in_process=16, processes=4, all_json=True), vlib.build_harness(), exe=exe):
             fails["nondeterministic-output"].append((dict(outcomes=f["outcomes"], counts=f["counts"], bytes=f["bytes"],
                                                           played=f["played"], files=f["files"]), src))
     if r.get("status") == "ok":
